@@ -101,6 +101,8 @@ def base_cases(rnd, n, prefix, bnodes=True, schema_share=.3, inverse=None, ors=F
 def relabel(T, rnd):
     labels = sorted({t[1] for s, p, o in T for t in (s, o) if t[0] == "BNode"})
     new = ["_:r%d" % i for i in range(len(labels))]
+    if len(labels) <= 7 and rnd.random() < .5:      # labels that are prefixes of one another
+        new = ["_:r1", "_:r12", "_:r1x", "_:r", "_:r120", "_:q7", "_:q70"][:len(labels)]
     rnd.shuffle(new)
     ren = dict(zip(labels, new))
 
